@@ -129,6 +129,43 @@ def execute(version, hist_abs, seed, thr=None, interleave=None, policy=None, chu
     return run, {'tp': prof.ge(107), 'ev': ev, 'version': version}, prof
 
 
+def pending_write_scenario(version, seed, n_pending):
+    """The server sends its disconnect packet and closes while the client still has packets queued: the failing write
+    is not an error (the disconnect packet explains it): clean exit, exit callback once, no error reported."""
+    from minecraft.networking.packets import Packet, serverbound
+    prof = Profile(version)
+    run = Run(seed=seed, chunk='random')
+    holder = {}
+
+    def factory(idx, sess):
+        sc = TracingScript(run, prof, [])
+        sc.steps = [('expect', 2), ('send', prof.login_success(bytes(range(16)), 'verif')),
+                    ('call', lambda s: setattr(s, 'state', 'play')), ('pause', 'go'),
+                    sc.tagged(prof.play_disconnect('{"text":"bye"}'), 'disc', []), ('close',)]
+        holder['sc'] = sc
+        return sc
+    run.serve(factory)
+
+    def scenario(run):
+        c = run.make_connection(allowed_versions={version})
+        c.register_packet_listener(lambda p: run.ev('deliver', p=packet_obs(p, prof)), Packet)
+        c.connect()
+        run.settle()
+        holder['sc'].resume('go')           # disconnect packet + close are on their way
+        for k in range(n_pending):          # ... while the application keeps queueing packets
+            c.write_packet(serverbound.play.ChatPacket(message='late %d' % k))
+    run.go(scenario)
+    ev = []
+    for e in run.trace:
+        if e['k'] == 'srv':
+            ev.append({'k': 'srv', 'p': e['p']})
+        elif e['k'] == 'deliver' and e['p'][0] != 'other':
+            ev.append({'k': 'deliver', 'p': e['p']})
+        elif e['k'] in ('closed', 'exit', 'error'):
+            ev.append({'k': e['k']})
+    return run, {'tp': prof.ge(107), 'ev': ev, 'version': version}
+
+
 def random_history(rng, n, prof_ge339):
     ka_small = [0, 1, 127, 128, 255, 256, 16383, 16384, 2 ** 31 - 1]
     ka_long = [-2 ** 63, -1, 2 ** 63 - 1, 2 ** 32 - 1, 2 ** 32, -2 ** 31]
@@ -245,6 +282,18 @@ def run(chk):
                               % (len(hist), version, thr, run_.outcome), {'version': version, 'seed': seed, 'thr': thr})
             all_traces.append(tr)
     chk.sample({'long_history_excerpt': all_traces[-1]['ev'][:10], 'version': all_traces[-1]['version']})
+
+    # ---- 3b. the disconnect packet arrives while writes are pending (they fail: not an error)
+    for j in range(12 if quick else 120):
+        version = rng.choice(sup)
+        run_, tr = pending_write_scenario(version, chk.seed * 4099 + j, n_pending=[1, 2, 5][j % 3])
+        chk.traces += 1
+        chk.case(('pending', j))
+        if run_.outcome != 'done' or run_.errors or run_.exits != 1:
+            chk.violation('play:disconnect-with-pending-writes',
+                          'server disconnect packet + close with %d packets still queued at protocol %d: execution %s, exit callback ran '
+                          '%d times, errors %r' % ([1, 2, 5][j % 3], version, run_.outcome, run_.exits, run_.errors[:2]), {'version': version})
+        all_traces.append(tr)
 
     # ---- 4. validate all traces against the contract
     shards = 8
